@@ -130,23 +130,14 @@ Proof.
 Qed.
 
 Lemma slru_admit_ok k c s : slru_inv s ->
-  admit_keep_old (slru_tr s) (slru_tr (slru_admit k c s)) k c.
+  admit_full (slru_tr s) (slru_tr (slru_admit k c s)) k c.
 Proof.
-  intros H. unfold admit_keep_old, slru_admit.
-  destruct (ll_has k (sl_prot s)) eqn:Ept; cbn [negb andb].
-  - apply ll_has_true in Ept. destruct (slru_lookup_prot _ _ H Ept) as [c0 Hl]. rewrite Hl.
-    apply Permutation_refl.
-  - apply ll_has_false in Ept. destruct (ll_has k (sl_prob s)) eqn:Epb; cbn [negb].
-    + apply ll_has_true in Epb.
-      assert (Hl : exists c0, lookup k (slru_tr s) = Some c0).
-      { apply In_keys_lookup. unfold slru_tr. rewrite keys_app. apply in_or_app. left. exact Epb. }
-      destruct Hl as [c0 Hl]. rewrite Hl. apply Permutation_refl.
-    + apply ll_has_false in Epb.
-      assert (Hl : lookup k (slru_tr s) = None).
-      { apply lookup_None. unfold slru_tr. rewrite keys_app. intros Hi.
-        apply in_app_or in Hi. tauto. }
-      rewrite Hl. unfold slru_tr. cbn [sl_prob sl_prot]. unfold ll_push_front.
-      rewrite (rm_id k (sl_prob s) Epb). apply Permutation_refl.
+  intros H. unfold admit_full, slru_admit, slru_tr. rewrite rm_app.
+  destruct (ll_has k (sl_prot s)) eqn:Ept; cbn [sl_prob sl_prot]; unfold ll_push_front.
+  - apply ll_has_true in Ept.
+    rewrite (rm_id k (sl_prob s)) by (apply tr_not_in_prob; assumption).
+    apply Permutation_sym, Permutation_middle.
+  - apply ll_has_false in Ept. rewrite (rm_id k (sl_prot s) Ept). apply Permutation_refl.
 Qed.
 
 Lemma slru_remove_ok k s : slru_inv s ->
@@ -172,8 +163,11 @@ Proof.
   rewrite !app_assoc. apply Permutation_app_tail. apply Permutation_app_comm.
 Qed.
 
-Lemma slru_evict_ok pcap n s s' vs f : slru_inv s ->
-  slru_evict pcap n s = (s', vs, f) -> evict_ok (slru_tr s) (slru_tr s') n vs f.
+(* the victims V and the survivors split the tracked entries; all is taken if short *)
+Lemma slru_evict_split pcap n s s' vs f : slru_inv s ->
+  slru_evict pcap n s = (s', vs, f) ->
+  exists V, vs = keys V /\ f = total V /\ Permutation (slru_tr s) (V ++ slru_tr s')
+    /\ (n <= f \/ slru_tr s' = []).
 Proof.
   intros H. unfold slru_evict.
   pose proof (slru_maintain_all_perm pcap s H) as HP1.
@@ -187,23 +181,28 @@ Proof.
   { rewrite <- (rev_involutive (sl_prob s1)), Hr1, rev_app_distr. reflexivity. }
   assert (Hpt : sl_prot s1 = rev rest2 ++ rev tk2).
   { rewrite <- (rev_involutive (sl_prot s1)), Hr2, rev_app_distr. reflexivity. }
-  assert (HP : Permutation (slru_tr s) ((tk1 ++ tk2) ++ rev rest1 ++ rev rest2)).
-  { eapply Permutation_trans; [apply Permutation_sym; exact HP1|].
-    unfold slru_tr at 1. rewrite Hpb, Hpt. apply seg_split_perm. }
-  subst vs1 vs2. rewrite <- keys_app. unfold slru_tr at 2. cbn [sl_prob sl_prot].
-  apply evict_ok_split.
-  - exact H.
-  - exact HP.
+  exists (tk1 ++ tk2). unfold slru_tr at 2 3. cbn [sl_prob sl_prot]. repeat split.
+  - subst vs1 vs2. rewrite keys_app. reflexivity.
   - rewrite total_app. lia.
-  - intros Hn. destruct Hs2 as [Hs2|Hs2]; [exact Hs2|].
-    destruct Hs1 as [Hs1|Hs1]; [lia|].
-    subst rest1 rest2. cbn [rev app] in HP. rewrite app_nil_r in HP.
-    apply total_perm in HP. rewrite total_app in HP. lia.
+  - eapply Permutation_trans; [apply Permutation_sym; exact HP1|].
+    unfold slru_tr at 1. rewrite Hpb, Hpt. apply seg_split_perm.
+  - destruct Hs2 as [Hs2|Hs2]; [left; exact Hs2|].
+    destruct Hs1 as [Hs1|Hs1]; [left; lia|].
+    right. subst rest1 rest2. reflexivity.
+Qed.
+
+Lemma slru_evict_ok pcap n s s' vs f : slru_inv s ->
+  slru_evict pcap n s = (s', vs, f) -> evict_ok (slru_tr s) (slru_tr s') n vs f.
+Proof.
+  intros H E. destruct (slru_evict_split _ _ _ _ _ _ H E) as [V [Hv [Hf [HP Hs]]]].
+  subst vs. apply evict_ok_split; [exact H | exact HP | exact Hf|].
+  intros Hn. destruct Hs as [Hs|Hs]; [exact Hs|].
+  rewrite Hs, app_nil_r in HP. apply total_perm in HP. lia.
 Qed.
 
 Lemma slru_step_ok cap s cl : slru_inv s ->
   let '(s', o) := slru_step cap s cl in
-  step_okG access_update admit_keep_old evict_ok (slru_tr s) cl o (slru_tr s').
+  step_okG access_update admit_full evict_ok (slru_tr s) cl o (slru_tr s').
 Proof.
   intros H. destruct cl as [k c|k c|k|n|]; cbn [slru_step step_okG].
   - apply slru_access_ok. exact H.
@@ -214,24 +213,14 @@ Proof.
   - reflexivity.
 Qed.
 
-Theorem slru_contract_keep_old cap :
-  contractG access_update admit_keep_old evict_ok (SlruP cap).
+Theorem slru_contract cap : contractG access_update admit_full evict_ok (SlruP cap).
 Proof.
   apply contractG_lift_nodup.
   - exact access_update_NoDup.
-  - exact admit_keep_old_NoDup.
+  - exact admit_full_NoDup.
   - intros T T' n vs c. apply evict_ok_core.
   - constructor.
   - intros s cl Hs. exact (slru_step_ok cap s cl Hs).
-Qed.
-
-(** F-19 for Slru: re-admission keeps the old cost, for every capacity *)
-Theorem slru_readmit_refuted cap : ~ contractG access_update admit_full evict_ok (SlruP cap).
-Proof.
-  intros H. specialize (H [Admit 1 1]). cbv zeta in H. destruct H as [_ H].
-  specialize (H (Admit 1 50)).
-  change (Permutation [(1, 1)] [(1, 50)]) in H.
-  apply Permutation_length_1_inv in H. discriminate.
 Qed.
 
 (** when the access passes the recorded cost (what the cache does: the entry's
